@@ -188,3 +188,33 @@ Example C11_read_failure_key_lookup_keeps_ref :
     get_thread (threads s) 2 = Some th2 /\ t_resp th2 = Some (RErr EStoreRead) /\
     v_iks s = [] /\ v_refs s = [9%N].
 Proof. exact e2_read_failure_key_keeps_ref. Qed.
+
+(* ---- graceful shutdown (AClose / ACloseOk) -------------------------------------------------------------------------- *)
+(* [AClose] is state-wise [ACrash], [ACloseOk] is [APersistOk] then [ACrash]; both are actions of [reachable], so
+   C11_unique holds across them.  The reference table is gone with the generation: *)
+Theorem C11_close_frees_refs : forall s a s', a = AClose \/ a = ACloseOk -> step s a = Some s' ->
+  v_iks s' = [] /\ v_refs s' = [] /\ v_revs s' = [] /\ v_locks s' = [] /\ v_queue s' = [].
+Proof. exact e2_close_frees. Qed.
+Print Assumptions C11_close_frees_refs.
+
+(* non-vacuity: request 2 (reference 9, no key) has its entry QUEUED behind the batch of request 1; [ACloseOk] drops it
+   ([RCrashed], no entry with reference 9 on disk); a NEW request with reference 9 commits: exactly one entry carries
+   it.  Entry IN the batch written by [ACloseOk]: the retry finds the reference on disk and is refused
+   ([RErr EConflict]), writes nothing: exactly one entry *)
+Example C11_close_then_retry :
+  (exists s1 s th2 th3,
+     run init (e2_rf_fund ++ e2_close_busy 1 ++ AStart 2 e2_pay09 :: e2_rs 2 10 ++ [ACloseOk]) = Some s1 /\
+     count_where (fun e => N.eqb (e_ref e) 9) (persisted s1) = 0 /\ v_refs s1 = [] /\
+     run init (e2_rf_fund ++ e2_close_busy 1 ++ AStart 2 e2_pay09 :: e2_rs 2 10 ++ [ACloseOk] ++
+               AStart 3 e2_pay09 :: e2_rs 3 10 ++ [APersistOk] ++ e2_rs 3 3) = Some s /\
+     get_thread (threads s) 2 = Some th2 /\ get_thread (threads s) 3 = Some th3 /\ t_req th3 = t_req th2 /\
+     rq_ref (t_req th2) = 9%N /\ t_resp th2 = Some RCrashed /\ t_resp th3 = Some (ROk (Some 2)) /\
+     map (fun e => (e_owner e, e_ref e)) (persisted s) = [(0, 0%N); (1, 0%N); (3, 9%N)] /\
+     count_where (fun e => N.eqb (e_ref e) 9) (persisted s) = 1 /\ v_refs s = []) /\
+  (exists s th2 th3,
+     run init (e2_rf_fund ++ AStart 2 e2_pay09 :: e2_rs 2 10 ++ [ACloseOk] ++ AStart 3 e2_pay09 :: e2_rs 3 2) = Some s /\
+     get_thread (threads s) 2 = Some th2 /\ get_thread (threads s) 3 = Some th3 /\
+     t_resp th2 = Some RCrashed /\ t_resp th3 = Some (RErr EConflict) /\ t_entry th3 = None /\
+     map (fun e => (e_owner e, e_ref e)) (persisted s) = [(0, 0%N); (2, 9%N)] /\ v_pending s = [] /\ v_batch s = None /\
+     count_where (fun e => N.eqb (e_ref e) 9) (persisted s) = 1 /\ v_refs s = []).
+Proof. exact e2_close_then_retry_ref. Qed.
